@@ -3,7 +3,7 @@
 three mechanical renamings. Prints every violated/undecided obligation that is not violated on /repo (suffix-stripped)."""
 import glob,os,shutil,subprocess,sys,tempfile,re
 from concurrent.futures import ThreadPoolExecutor
-ENV=dict(os.environ,GOFLAGS='-mod=mod',GOPROXY='off',GOSUMDB='off',GOTOOLCHAIN='local',GOWORK='off')
+ENV=dict(os.environ,GOFLAGS='-mod=mod -trimpath',GOPROXY='off',GOSUMDB='off',GOTOOLCHAIN='local',GOWORK='off')
 HC=os.environ.get('HMSCHECK','/verif/bin/hmscheck'); rules=sys.argv[1]
 def bad(repo):
     p=subprocess.run([HC,'-rule',rules,'-repo',repo,'-verif','/verif'],capture_output=True,text=True,env=ENV)
@@ -17,7 +17,7 @@ def norm(l): return re.sub(r'\s+\|\s+\S+:\d+$','',l)
 def run(d):
     tmp=tempfile.mkdtemp(prefix='hms-rc-')
     try:
-        scr=os.path.join(tmp,'repo'); subprocess.run(['cp','-a','/repo',scr],check=True); shutil.rmtree(os.path.join(scr,'.git'),ignore_errors=True)
+        scr=os.path.join(tmp,'repo'); os.makedirs(scr); subprocess.run(['rsync','-a','--exclude=.git','/repo/',scr+'/'],check=True)
         if d.startswith('rename:'):
             if subprocess.run(['/verif/bin/renamer','-dir',scr,'-what',d[7:],'-suffix','Zq'],capture_output=True,env=ENV).returncode!=0: return d,['renamer failed']
         else:
